@@ -334,7 +334,13 @@ namespace foonathan
 
             std::size_t def_capacity() const noexcept
             {
-                return arena_.current_block().size / pools_.size();
+                // a reservation of this size must fit into a fresh block together with its
+                // debug fences and the alignment padding behind the first fence
+                auto overhead = detail::debug_fence_size ?
+                                    2 * detail::debug_fence_size + detail::max_alignment :
+                                    0u;
+                auto size     = arena_.current_block().size;
+                return (size > overhead ? size - overhead : 0u) / pools_.size();
             }
 
             detail::fixed_memory_stack allocate_block()
